@@ -76,7 +76,10 @@ CATALOG = {
         "drivers": [("reduce", {"quick": 500, "thorough": 20000}, {})],
         "models": [{"module": "MC_Reduce", "cfg": {"quick": "MC_Reduce_quick", "thorough": "MC_Reduce_thorough"},
                     "extract": "reduce_vectors", "replay": "run_reduce_vector", "chunk": 40,
-                    "limit": {"quick": 5000, "thorough": 100000}}],
+                    "limit": {"quick": 5000, "thorough": 100000}},
+                   {"module": "MC_LinAlg", "cfg": {"quick": "MC_LinAlg_quick", "thorough": "MC_LinAlg_thorough"},
+                    "extract": "linalg_vectors", "replay": "run_linalg_vector", "chunk": 40,
+                    "limit": {"quick": 3000, "thorough": 50000}}],
     },
     "C18": {
         "drivers": [("index", {"quick": 500, "thorough": 20000}, {})],
